@@ -66,7 +66,7 @@ func main() {
 	r.Require("retry_stop_after_nonretriable_opportunities", 2000)
 	r.Require("retry_stop_after_cancel_opportunities", 2000)
 	r.Require("retry_exhausted_all_attempts", 500)
-	r.Require("retry_context_kind_reported", 500)
+	r.Require("retry_context_kind_reported", 200)
 	r.Require("retry_predone_context_cases", 100)
 	r.Require("retry_classes", 60)
 	r.Require("apply_evaluations", int64(r.Pick(2000000, 40000000)))
